@@ -47,6 +47,8 @@ pub enum Src {
     Unknown(u8, u32),
     /// null outpoint (coinbase-shaped when it is the only input)
     Null,
+    /// all-zero txid with an arbitrary index (only half of the null outpoint)
+    ZeroTxid(u32),
 }
 
 #[derive(Clone, Debug, PartialEq, Eq, Serialize, Deserialize)]
@@ -167,6 +169,7 @@ fn build_tx(t: &TxSpec, ctx: &mut Ctx, force_coinbase: bool) -> Tx {
                 Src::Known(n) => (seed_hash(b"unk", *n as u64, k as u64), 0),
                 Src::Unknown(seed, idx) => (seed_hash(b"unk", *seed as u64, 0x55), *idx),
                 Src::Null => ([0u8; 32], 0xffff_ffff),
+                Src::ZeroTxid(idx) => ([0u8; 32], *idx),
             }
         };
         inputs.push(TxIn { prev_txid: txid, prev_index: idx, script_sig: i.script_sig.clone(), sequence: i.sequence, witness: i.witness.clone() });
